@@ -402,6 +402,42 @@ impl<Endpoint: Ord + Clone> BlockHandler<Endpoint> {
     }
 }
 
+/// Verification hook: one cache entry as `(method byte, path, requester, last
+/// Block2 request, cached response, upload buffer)`.
+#[cfg(coap_lite_verif)]
+pub type VerifEntry<Endpoint> = (
+    u8,
+    Vec<String>,
+    Option<Endpoint>,
+    Option<BlockValue>,
+    Option<Packet>,
+    Option<Vec<u8>>,
+);
+
+#[cfg(coap_lite_verif)]
+impl<Endpoint: Ord + Clone> BlockHandler<Endpoint> {
+    /// Verification hook: the live (non-expired) cache entries in key order,
+    /// read without touching their time stamps.
+    pub fn verif_snapshot(&self) -> Vec<VerifEntry<Endpoint>> {
+        let mut entries: Vec<_> = self
+            .states
+            .peek_iter()
+            .map(|(key, state)| {
+                (
+                    key.request_type_ord,
+                    key.path.clone(),
+                    key.requester.clone(),
+                    state.last_request_block2.clone(),
+                    state.cached_response.clone(),
+                    state.cached_request_payload.clone(),
+                )
+            })
+            .collect();
+        entries.sort_by(|a, b| (a.0, &a.1, &a.2).cmp(&(b.0, &b.1, &b.2)));
+        entries
+    }
+}
+
 /// Similar to [`Vec::splice`] except that the Vec's length may be extended to
 /// support the splice, but only up to an increase of `maximum_reserve_len`
 /// (for security reasons if the data you're receiving is untrusted ensure this
